@@ -1060,6 +1060,61 @@ def contract_falsy(case):
     return ("ok", True)
 
 
+# ================================================================================================ caller-chosen identifiers
+def _id_dir_stem(source):
+    """identifier = <directory>-<stem>: inputs with the same file name in different directories stay distinct"""
+    p = Path(str(getattr(source, "source", source)))
+    return f"{p.parent.name}-{p.name.split('.')[0]}"
+
+
+def gen_custom_ids(tier, seed):
+    for writer in ("seqs", "json"):
+        for mode in ("serial",):     # (the harness worker is a daemonic process and cannot start a pool; schedules: own contract)
+            for failing in ([], ["d1/s2"], ["d1/s1", "d2/s1"]):
+                yield [writer, mode, failing]
+
+
+def contract_custom_ids(case):
+    """apply_to(..., id_from_source=f): every input ends up as exactly one record under f(input), also when the default
+    identifier (the file name) of two inputs coincides"""
+    import tempfile
+
+    from cogent3 import get_app, open_data_store
+    writer, mode, failing = case
+    inputs = ["d1/s1", "d1/s2", "d2/s1", "d2/s3"]
+    with tempfile.TemporaryDirectory(prefix="c14ids_") as tmp:
+        root = Path(tmp)
+        paths = []
+        for k, rel in enumerate(inputs):
+            f = root / "in" / (rel + ".fasta")
+            f.parent.mkdir(parents=True, exist_ok=True)
+            seq = "AC" if rel in failing else "ACGTTGCA" + "ACGT"[k % 4] * (k + 1)      # shorter than min_length: not completed
+            f.write_text(f">x\n{seq}\n>y\n{seq[::-1]}\n")
+            paths.append(str(f))
+        import cogent3.app.data_store as dsm
+        old_master = dsm.is_master_process
+        dsm.is_master_process = lambda: True      # the forked harness worker plays the user's main process
+        kw = dict(parallel=True, par_kw=dict(max_workers=2)) if mode == "parallel" else {}
+        try:
+            out = open_data_store(root / "out", suffix="fasta" if writer == "seqs" else "json", mode="w")
+            w = get_app("write_seqs", data_store=out, format="fasta") if writer == "seqs" else get_app("write_json", data_store=out)
+            app = get_app("load_unaligned", format="fasta", moltype="dna") + get_app("min_length", length=5) + w
+            app.apply_to(paths, id_from_source=_id_dir_stem, show_progress=False, logger=False, **kw)
+        except Exception as e:
+            return ("fail", f"custom-ids/{writer}/{mode}/apply_to-raises-{type(e).__name__}", f"{case}: {type(e).__name__}: {str(e)[:200]}")
+        finally:
+            dsm.is_master_process = old_master
+        done = sorted(Path(str(m.unique_id)).name.split(".")[0] for m in out.completed)
+        notc = sorted(Path(str(m.unique_id)).name.split(".")[0] for m in out.not_completed)
+        want_done = sorted(rel.replace("/", "-") for rel in inputs if rel not in failing)
+        want_nc = sorted(rel.replace("/", "-") for rel in failing)
+        if done != want_done or notc != want_nc:
+            what = "record-count" if len(done) + len(notc) != len(inputs) else "identifiers"
+            return ("fail", f"custom-ids/{writer}/{mode}/{what}-differ",
+                    f"{case}: inputs {inputs} with id = <dir>-<stem>: completed {done} (want {want_done}), not completed {notc} (want {want_nc})")
+        return ("ok", True)
+
+
 # ================================================================================================ mutable options
 def gen_options(tier, seed):
     for kind in ("dict", "list"):
@@ -1097,6 +1152,14 @@ def contract_options(case):
 
 
 BOUNDED = {
+    "custom_ids": {
+        "gen": gen_custom_ids, "contract": contract_custom_ids,
+        "functions": ["composable._apply_to (id_from_source argument)", "io.write_seqs", "io.write_json", "DataStoreDirectory"],
+        "bound": "4 inputs in 2 directories, two of them with the same file name; identifier function <dir>-<stem>; writers "
+                 "write_seqs / write_json x {no, one, two} failing inputs; serial",
+        "rule": "every input is exactly one completed or not-completed record under the identifier the caller's function gives it",
+        "shards": 1,
+    },
     "mutable_options": {
         "gen": gen_options, "contract": contract_options,
         "functions": ["app.composable._class_from_func (_init / _main of function-defined apps)", "define_app",
